@@ -131,7 +131,7 @@ Qed.
 Lemma drain_line_len inp : forall acc cm rest, drain_line inp acc = (cm, Some rest) -> length rest < length inp.
 Proof.
   induction inp as [|r0 inp IH]; intros acc cm rest; simpl; [discriminate|].
-  destruct (N.eqb (fst r0) 10); [intros [= _ <-]; lia|]. intros H. apply IH in H. lia.
+  destruct (N.eqb (fst r0) 10 || N.eqb (fst r0) 13); [intros [= _ <-]; lia|]. intros H. apply IH in H. lia.
 Qed.
 
 (* capture never runs out of fuel when given more fuel than input, and consumes at least one rune *)
